@@ -14,6 +14,7 @@ RULE = ("icontract postconditions on the five public subsolvers, evaluated "
         "bound / the ball; distinct = (solver, degeneracy set, termination "
         "side)")
 RULE += ("  Structured families added to the fuzz: orth_negcurv, near_stationary_1d, exact_ties, bound ties inside the ball, near_boundary_restart, ub_tr_tie, normal_tight, ub_reach_window.")
+RULE += (" Family normal_dominated_gradient (gradient dominated by 6..12 decades by an active constraint normal).")
 ASSUMPTIONS = [
     "bounds checked exactly; radius / inequality / null-space excess judged "
     "relative to the data: held <= 1e-9 (largest seen on 3.2e5 calibrating "
